@@ -20,13 +20,14 @@ func VH_C18_IntegrityBlockSerializers() {
 	magic := append([]byte{}, IntegrityBlockMagic[:cap(IntegrityBlockMagic)]...)
 	ver := append([]byte{}, VersionB1[:cap(VersionB1)]...)
 	which := vh.Choose(2)
+	h := vh.Bytes("h", 4)
 	run := func() []byte {
-		if which == 0 {
-			b, err := ib.CborBytes()
-			vh.Assume(err == nil)
-			return b
-		}
-		b, err := GenerateDataToBeSigned(vh.Bytes("h", 4), []byte{1, 2}, attrs)
+		b, err := vh.Isolated(func() ([]byte, error) { // write-set recorder on
+			if which == 0 {
+				return ib.CborBytes()
+			}
+			return GenerateDataToBeSigned(h, []byte{1, 2}, attrs)
+		})
 		vh.Assume(err == nil)
 		return b
 	}
